@@ -258,12 +258,13 @@ Definition step (v : variant) (s : state) (l : label) : option state :=
              end
       else None
   | FbSelect i a =>
+      (* the channel operands were evaluated when the select was entered (the FbCheck / FbCas step) *)
       if at_pc (PFbSel i) s then
-        if nilled s then Some (crash (PFbSel i) (OFb i) s)
-        else match a with
+        match a with
         | ArmCtx => if cancelled s then Some (give_back i (ret (OFb i) RShut (call_del (PFbSel i) s))) else None
         | ArmFrozen => if frozen s then Some (give_back i (ret (OFb i) RFrozen (call_del (PFbSel i) s))) else None
-        | ArmChan => if length (input s) <? cap s
+        | ArmChan => if nilled s then Some (crash (PFbSel i) (OFb i) s)      (* send on closed channel *)
+                     else if length (input s) <? cap s
                      then Some (ret (OFb i) ROk (push_input i (call_del (PFbSel i) s)))
                      else None
         end
